@@ -300,4 +300,440 @@ theorem emit_expand_of_no_unpack (cfg : Cfg) (t : Tok) (sep : Nat → Bytes) (j 
     simp only [mapBounds, hc, List.map_cons, List.map_nil, List.singleton_append]
     rw [emit_bound, emit_bound, htext, ih, hcount]
 
+/-! ## B. the output loop, `--json` included -/
+
+/-- what the output loop needs to know about the ranges `fields` into `line`, in terms of the
+    tokens of the specification and its rendering `sep` of the separators: as many ranges as
+    tokens, slices in range, and the printed text of a range of fields is the specification's
+    piece -/
+structure RefinesText (opt : Opt) (line : Bytes) (fields : List Range) (tok : Tok)
+    (sep : Nat → Bytes) : Prop where
+  len : fields.length = tok.numFields
+  inb : ∀ (a b : Nat) (hab : a ≤ b) (hb : b < fields.length),
+    (fields[a]'(by omega)).start ≤ fields[b].stop ∧ fields[b].stop ≤ line.length
+  text : ∀ (a b : Nat) (hab : a ≤ b) (hb : b < fields.length),
+    maybeReplaceDelimiter (slice line (fields[a]'(by omega)).start fields[b].stop) opt false =
+      pieceText sep tok (a + 1) (b + 1)
+
+theorem writeMaybeAsJson_eq (opt : Opt) (x : Bytes) :
+    writeMaybeAsJson x opt.json =
+      match renderS (cfgOf opt) x with
+      | none => Run.fail
+      | some x' => Run.ok x' := by
+  unfold writeMaybeAsJson renderS
+  have hj : (cfgOf opt).json = opt.json := rfl
+  rw [hj]
+  cases opt.json <;> cases validUtf8 x <;> rfl
+
+theorem write_joiner_algebra (opt : Opt) (x J : Bytes) (isLast : Bool) (c : Nat) (R : Run)
+    (h : isLast = true ↔ c = 0) :
+    ((writeMaybeAsJson x opt.json).seq (if opt.join && !isLast then Run.ok J else Run.empty)).seq R =
+      match renderS (cfgOf opt) x with
+      | none => Run.fail
+      | some x' => Run.pre (x' ++ (if opt.join && decide (c > 0) then J else [])) R := by
+  rw [writeMaybeAsJson_eq]
+  cases renderS (cfgOf opt) x with
+  | none => simp [Run.seq, Run.fail]
+  | some x' => exact joiner_algebra _ _ _ _ _ _ h
+
+/-- one bound of the output loop, followed by the rest `R` of the run -/
+theorem outputBof_bound_gen (opt : Opt) (line : Bytes) (fields : List Range) (tok : Tok)
+    (sep : Nat → Bytes) (hR : RefinesText opt line fields tok sep)
+    (b : UserBounds) (hz : b.Nonzero) (c : Nat) (hL : b.isLast = true ↔ c = 0) (R : Run) :
+    (outputBof line fields fields.length opt false (.bound b)).seq R =
+      match (boundTextS (cfgOf opt) tok sep b).bind (renderS (cfgOf opt)) with
+      | none => Run.fail
+      | some x' =>
+        Run.pre (x' ++ (if opt.join && decide (c > 0) then opt.replaceDelimiter.getD opt.delimiter
+          else [])) R := by
+  unfold outputBof boundTextS
+  simp only []
+  rw [tryIntoRange_eq_resolve b fields.length hz, hR.len]
+  cases hres : resolve b tok.numFields with
+  | none =>
+    simp only [Option.map_none]
+    cases b.fallback with
+    | some f => exact write_joiner_algebra _ _ _ _ _ _ hL
+    | none =>
+      have hf : (cfgOf opt).fallback = opt.fallbackOob := rfl
+      rw [hf]
+      cases opt.fallbackOob with
+      | some f => exact write_joiner_algebra _ _ _ _ _ _ hL
+      | none => simp [Run.seq, Run.fail]
+  | some p =>
+    obtain ⟨lo, hi⟩ := p
+    have htr : b.tryIntoRange fields.length = some (lo - 1, hi) := by
+      rw [tryIntoRange_eq_resolve b fields.length hz, hR.len, hres]; rfl
+    have hzl : b.l ≠ .some 0 := by
+      intro h0
+      have := hz.1
+      rw [h0] at this
+      exact this rfl
+    obtain ⟨h1, h2⟩ := tryIntoRange_bounds b _ _ _ hzl htr
+    obtain ⟨h3, h4⟩ := resolve_some hres
+    have hs : lo - 1 < fields.length := by omega
+    have he : hi - 1 < fields.length := by omega
+    have hin := hR.inb (lo - 1) (hi - 1) (by omega) he
+    have htext := hR.text (lo - 1) (hi - 1) (by omega) he
+    have e1 : lo - 1 + 1 = lo := by omega
+    have e2 : hi - 1 + 1 = hi := by omega
+    rw [e1, e2] at htext
+    simp only [Option.map_some, List.getElem?_eq_getElem hs, List.getElem?_eq_getElem he]
+    rw [if_pos hin, htext]
+    exact write_joiner_algebra _ _ _ _ _ _ hL
+
+/-- **the output loop is the specification's `emit`**, with or without `--json`, for any field
+    vector that `RefinesText` the tokens -/
+theorem outputLoop_eq_emit_gen (opt : Opt) (line : Bytes) (fields : List Range) (tok : Tok)
+    (sep : Nat → Bytes) (hR : RefinesText opt line fields tok sep) :
+    ∀ (bofs : List BoF), AllNonzero bofs → LastMarked bofs →
+      outputLoop line fields fields.length opt false bofs =
+        emit (cfgOf opt) tok sep (opt.replaceDelimiter.getD opt.delimiter) bofs
+  | [], _, _ => rfl
+  | .filler f :: t, hz, hL => by
+    have ih := outputLoop_eq_emit_gen opt line fields tok sep hR t
+      (fun b hb => hz b (List.mem_cons_of_mem _ hb)) hL
+    simp only [outputLoop, outputBof, emit, Run.seq_ok, ih]
+  | .bound b :: t, hz, hL => by
+    have ih := outputLoop_eq_emit_gen opt line fields tok sep hR t
+      (fun b hb => hz b (List.mem_cons_of_mem _ hb)) hL.2
+    have hb := outputBof_bound_gen opt line fields tok sep hR b
+      (hz b (List.mem_cons_self ..)) (countBounds t) hL.1
+      (outputLoop line fields fields.length opt false t)
+    simp only [outputLoop]
+    rw [hb, ih, emit_bound]
+    rfl
+
+/-! ## C. the passes of `emitRecord` -/
+
+/-- the unpack pass (cut_str.rs:369) -/
+def stageUnpack (opt : Opt) (n : Nat) : Res UserBoundsList → Res UserBoundsList
+  | .fail => .fail
+  | .panic => .panic
+  | .ok bounds =>
+    if (opt.json || (opt.boundsType = .characters && opt.replaceDelimiter.isSome))
+        && bounds.list.any needsUnpack
+    then unpackList bounds.list n else .ok bounds
+
+/-- the output loop, `]`, the end of line -/
+def stageLoop (line : Bytes) (fields : List Range) (opt : Opt) (eol : Bytes) :
+    Res UserBoundsList → Run
+  | .fail => Run.fail
+  | .panic => Run.panic
+  | .ok bounds =>
+    ((outputLoop line fields fields.length opt false bounds.list).seq
+      (if opt.json then Run.ok [0x5D] else Run.empty)).seq (Run.ok eol)
+
+theorem emitRecord_stages (line : Bytes) (fields : List Range) (opt : Opt) (eol : Bytes) :
+    emitRecord line fields opt false eol =
+      if opt.onlyDelimited && fields.length == 1 then Run.empty
+      else
+        (if opt.json then Run.ok [0x5B] else Run.empty).seq
+          (stageLoop line fields opt eol (stageUnpack opt fields.length
+            (if opt.complement then complementList opt.bounds.list fields.length
+             else .ok opt.bounds))) := by
+  unfold emitRecord
+  simp only []
+  by_cases hs : (opt.onlyDelimited && fields.length == 1) = true
+  · rw [if_pos hs, if_pos hs]
+  · rw [if_neg hs, if_neg hs]
+    congr 1
+    generalize (if opt.complement = true then complementList opt.bounds.list fields.length
+      else Res.ok opt.bounds) = r
+    cases r with
+    | fail => rfl
+    | panic => rfl
+    | ok bounds =>
+      simp only [stageUnpack]
+      generalize (if ((opt.json || (decide (opt.boundsType = .characters) && opt.replaceDelimiter.isSome))
+        && bounds.list.any needsUnpack) = true then unpackList bounds.list fields.length
+        else Res.ok bounds) = r2
+      cases r2 <;> rfl
+
+theorem countBounds_pos_of_any_needsUnpack : ∀ (l : List BoF), l.any needsUnpack = true →
+    0 < countBounds l
+  | [], h => by simp at h
+  | .filler f :: t, h => by
+    simp only [List.any_cons, needsUnpack, Bool.false_or] at h
+    simpa [countBounds] using countBounds_pos_of_any_needsUnpack t h
+  | .bound b :: t, _ => by simp [countBounds]
+
+/-- the `-m` pass against the specification's rewriting -/
+theorem afterComplement_spec (opt : Opt) (n : Nat) (hz : AllNonzero opt.bounds.list)
+    (hL : LastMarked opt.bounds.list) :
+    ((opt.complement && countBounds (specBofs opt n) == 0) = true ∧
+      (if opt.complement then complementList opt.bounds.list n else .ok opt.bounds) = .fail) ∨
+    ((opt.complement && countBounds (specBofs opt n) == 0) = false ∧
+      ∃ ubl, (if opt.complement then complementList opt.bounds.list n else .ok opt.bounds) = .ok ubl ∧
+        ubl.list.map eraseLast = (specBofs opt n).map eraseLast ∧
+        AllNonzero ubl.list ∧ LastMarked ubl.list) := by
+  unfold specBofs
+  cases hc : opt.complement with
+  | false =>
+    right
+    refine ⟨rfl, opt.bounds, ?_, ?_, hz, hL⟩
+    · simp
+    · simp
+  | true =>
+    simp only [if_true, Bool.true_and]
+    unfold complementList
+    simp only []
+    rw [flatMap_complementBof_eq _ _ hz, boundsOnly_isEmpty_iff]
+    by_cases h0 : (countBounds (mapBounds (complementBound · n) opt.bounds.list) == 0) = true
+    · left
+      rw [if_pos h0]
+      exact ⟨h0, rfl⟩
+    · right
+      rw [if_neg h0]
+      refine ⟨by simpa using h0, ?_⟩
+      unfold fromVec
+      simp only []
+      cases hm : markLast (mapBounds (complementBound · n) opt.bounds.list) with
+      | none =>
+        have := countBounds_eq_zero_of_markLast_none _ hm
+        simp [this] at h0
+      | some l' =>
+        have he := markLast_eraseLast _ _ hm
+        exact ⟨_, rfl, he, allNonzero_of_eraseLast_eq he (mapBounds_complement_nonzero _ _ hz),
+          markLast_lastMarked _ _ (mapBounds_complement_noneMarked _ _) hm⟩
+
+/-- the unpack pass against the specification's unconditional expansion: it never fails, and what
+    it delivers is — for `emit` — the expanded list -/
+theorem stageUnpack_spec (opt : Opt) (n : Nat) (ubl : UserBoundsList)
+    (hz : AllNonzero ubl.list) (hL : LastMarked ubl.list)
+    (hunp : (opt.json || (opt.boundsType = .characters && opt.replaceDelimiter.isSome)) = true) :
+    ∃ ubl', stageUnpack opt n (.ok ubl) = .ok ubl' ∧ AllNonzero ubl'.list ∧ LastMarked ubl'.list ∧
+      ∀ (cfg : Cfg) (tok : Tok) (sep : Nat → Bytes) (j : Bytes), tok.numFields = n →
+        emit cfg tok sep j ubl'.list = emit cfg tok sep j (mapBounds (expandBound · n) ubl.list) := by
+  simp only [stageUnpack, hunp, Bool.true_and]
+  by_cases hany : ubl.list.any needsUnpack = true
+  · rw [if_pos hany]
+    unfold unpackList
+    rw [flatMap_unpackBof_eq n _ hz]
+    unfold fromVec
+    simp only []
+    cases hm : markLast (mapBounds (expandBound · n) ubl.list) with
+    | none =>
+      have h0 := countBounds_eq_zero_of_markLast_none _ hm
+      have h1 := countBounds_le_expand n ubl.list
+      have h2 := countBounds_pos_of_any_needsUnpack _ hany
+      omega
+    | some l' =>
+      have he := markLast_eraseLast _ _ hm
+      refine ⟨_, rfl, allNonzero_of_eraseLast_eq he (mapBounds_expand_nonzero _ _ hz),
+        markLast_lastMarked _ _ (mapBounds_expand_noneMarked _ _) hm, ?_⟩
+      intro cfg tok sep j _
+      show emit cfg tok sep j l' = _
+      rw [← emit_eraseLast _ _ _ _ l', he, emit_eraseLast]
+  · rw [if_neg hany]
+    refine ⟨ubl, rfl, hz, hL, ?_⟩
+    intro cfg tok sep j hn
+    subst hn
+    exact (emit_expand_of_no_unpack cfg tok sep j ubl.list (by simpa using hany)).symm
+
+/-- **everything after the ranges are known is the tail of the specification**, when the engine
+    expands ranges (`--json`, or character mode with its `-r ''`) -/
+theorem emitRecord_eq_spec_expand (opt : Opt) (line : Bytes) (fields : List Range) (tok : Tok)
+    (sep : Nat → Bytes) (hR : RefinesText opt line fields tok sep)
+    (hunp : (opt.json || (opt.boundsType = .characters && opt.replaceDelimiter.isSome)) = true)
+    (hz : AllNonzero opt.bounds.list) (hL : LastMarked opt.bounds.list) :
+    emitRecord line fields opt false [opt.eol.byte] =
+      if opt.onlyDelimited && tok.numFields == 1 then Run.empty
+      else
+        Run.pre (if opt.json then [0x5B] else [])
+          (if opt.complement && countBounds (specBofs opt tok.numFields) == 0 then Run.fail
+           else
+            (emit (cfgOf opt) tok sep (opt.replaceDelimiter.getD opt.delimiter)
+              (mapBounds (expandBound · tok.numFields) (specBofs opt tok.numFields))).seq
+              (Run.ok ((if opt.json then [0x5D] else []) ++ [opt.eol.byte]))) := by
+  rw [emitRecord_stages, ← hR.len]
+  by_cases hs : (opt.onlyDelimited && fields.length == 1) = true
+  · rw [if_pos hs, if_pos hs]
+  · rw [if_neg hs, if_neg hs]
+    have hopen : ∀ R : Run, (if opt.json then Run.ok [0x5B] else Run.empty).seq R =
+        Run.pre (if opt.json then [0x5B] else []) R := by
+      intro R; cases opt.json <;> simp [Run.seq_ok]
+    rw [hopen]
+    congr 1
+    rcases afterComplement_spec opt fields.length hz hL with ⟨h0, hfail⟩ | ⟨h0, ubl, hok, he, hz1, hL1⟩
+    · rw [if_pos h0, hfail]; rfl
+    · rw [h0, hok]
+      simp only [Bool.false_eq_true, if_false]
+      obtain ⟨ubl', hu, hz2, hL2, hemit⟩ := stageUnpack_spec opt fields.length ubl hz1 hL1 hunp
+      rw [hu]
+      simp only [stageLoop]
+      rw [outputLoop_eq_emit_gen opt line fields tok sep hR _ hz2 hL2,
+        hemit _ _ _ _ hR.len.symm, mapBounds_expand_congr he, Run.seq_assoc]
+      congr 1
+      cases opt.json <;> simp [Run.seq, Run.ok, Run.empty]
+
+/-! ## D. the passes of `specRecord` -/
+
+/-- how the specification renders a separator of `k` occurrences -/
+def specSep (cfg : Cfg) : Nat → Bytes := fun k =>
+  if cfg.chars then []
+  else match cfg.replace with
+    | some r => repeatBytes r k
+    | none => repeatBytes cfg.delimiter k
+
+/-- the record after `-t` -/
+def specLine (cfg : Cfg) (record : Bytes) : Bytes :=
+  match cfg.trim with
+  | some k => if cfg.chars then record else trimLiteral record k cfg.delimiter
+  | none => record
+
+def specTok (cfg : Cfg) (line : Bytes) : Option Tok :=
+  if cfg.chars then tokenizeChars line
+  else some (tokenize cfg.delimiter cfg.greedy cfg.compress line)
+
+/-- the specification once the tokens are known -/
+def specTail (cfg : Cfg) (tok : Tok) : Run :=
+  let n := tok.numFields
+  if cfg.onlyDelimited && n == 1 then Run.empty
+  else
+    let openB : Bytes := if cfg.json then [0x5B] else []
+    let closeB : Bytes := if cfg.json then [0x5D] else []
+    let bofs := if cfg.complement then mapBounds (complementBound · n) cfg.bofs else cfg.bofs
+    if cfg.complement && countBounds bofs == 0 then ⟨openB, .fail⟩
+    else
+      let bofs := if cfg.json || cfg.chars then mapBounds (expandBound · n) bofs else bofs
+      Run.pre openB ((emit cfg tok (specSep cfg) (cfg.replace.getD cfg.delimiter) bofs).seq
+        (Run.ok (closeB ++ [cfg.eol])))
+
+theorem specRecord_eq (cfg : Cfg) (record : Bytes) :
+    specRecord cfg record =
+      if (specLine cfg record).isEmpty then (if cfg.onlyDelimited then Run.empty else Run.ok [cfg.eol])
+      else
+        match specTok cfg (specLine cfg record) with
+        | none => Run.fail
+        | some tok => specTail cfg tok := rfl
+
+theorem specRecord_of_empty (cfg : Cfg) (record : Bytes) (h : specLine cfg record = []) :
+    specRecord cfg record = if cfg.onlyDelimited then Run.empty else Run.ok [cfg.eol] := by
+  rw [specRecord_eq, h]; rfl
+
+theorem specRecord_of_tok (cfg : Cfg) (record : Bytes) (tok : Tok) (hne : specLine cfg record ≠ [])
+    (htok : specTok cfg (specLine cfg record) = some tok) :
+    specRecord cfg record = specTail cfg tok := by
+  rw [specRecord_eq, htok]
+  have : (specLine cfg record).isEmpty = false := by
+    cases h : specLine cfg record with
+    | nil => exact absurd h hne
+    | cons _ _ => rfl
+  rw [this]
+  rfl
+
+/-- the tail of the specification when it expands ranges -/
+theorem specTail_expand (opt : Opt) (tok : Tok)
+    (hx : (opt.json || decide (opt.boundsType = .characters)) = true) :
+    specTail (cfgOf opt) tok =
+      if opt.onlyDelimited && tok.numFields == 1 then Run.empty
+      else
+        Run.pre (if opt.json then [0x5B] else [])
+          (if opt.complement && countBounds (specBofs opt tok.numFields) == 0 then Run.fail
+           else
+            (emit (cfgOf opt) tok (specSep (cfgOf opt)) (opt.replaceDelimiter.getD opt.delimiter)
+              (mapBounds (expandBound · tok.numFields) (specBofs opt tok.numFields))).seq
+              (Run.ok ((if opt.json then [0x5D] else []) ++ [opt.eol.byte]))) := by
+  have h1 : (cfgOf opt).onlyDelimited = opt.onlyDelimited := rfl
+  have h2 : (cfgOf opt).json = opt.json := rfl
+  have h3 : (cfgOf opt).complement = opt.complement := rfl
+  have h4 : (cfgOf opt).bofs = opt.bounds.list := rfl
+  have h5 : (cfgOf opt).chars = decide (opt.boundsType = .characters) := rfl
+  have h6 : (cfgOf opt).replace = opt.replaceDelimiter := rfl
+  have h7 : (cfgOf opt).delimiter = opt.delimiter := rfl
+  have h8 : (cfgOf opt).eol = opt.eol.byte := rfl
+  unfold specTail specBofs
+  simp only []
+  rw [h1, h2, h3, h4, h5, h6, h7, h8, hx]
+  by_cases hs : (opt.onlyDelimited && tok.numFields == 1) = true
+  · rw [if_pos hs, if_pos hs]
+  · rw [if_neg hs, if_neg hs]
+    by_cases h0 : (opt.complement && countBounds (if opt.complement = true then
+        mapBounds (fun x => complementBound x tok.numFields) opt.bounds.list
+        else opt.bounds.list) == 0) = true
+    · rw [if_pos h0, if_pos h0]
+      simp [Run.pre, Run.fail]
+    · rw [if_neg h0, if_neg h0]
+      rfl
+
+/-! ## E. where the elements of the rewritten lists come from -/
+
+theorem mapBounds_bound_mem {g : UserBounds → List UserBounds} : ∀ {l : List BoF} {c : UserBounds},
+    BoF.bound c ∈ mapBounds g l → ∃ b, BoF.bound b ∈ l ∧ c ∈ g b
+  | [], _, h => by simp [mapBounds] at h
+  | .filler f :: t, c, h => by
+    simp only [mapBounds, List.mem_cons, reduceCtorEq, false_or] at h
+    obtain ⟨b, hb, hc⟩ := mapBounds_bound_mem h
+    exact ⟨b, List.mem_cons_of_mem _ hb, hc⟩
+  | .bound b0 :: t, c, h => by
+    simp only [mapBounds, List.mem_append, List.mem_map, BoF.bound.injEq] at h
+    rcases h with ⟨c', hc', rfl⟩ | h
+    · exact ⟨b0, List.mem_cons_self .., hc'⟩
+    · obtain ⟨b, hb, hc⟩ := mapBounds_bound_mem h
+      exact ⟨b, List.mem_cons_of_mem _ hb, hc⟩
+
+theorem mapBounds_filler_mem {g : UserBounds → List UserBounds} : ∀ {l : List BoF} {f : Bytes},
+    BoF.filler f ∈ mapBounds g l → BoF.filler f ∈ l
+  | [], _, h => by simp [mapBounds] at h
+  | .filler f0 :: t, f, h => by
+    simp only [mapBounds, List.mem_cons] at h
+    rcases h with h | h
+    · rw [h]; exact List.mem_cons_self ..
+    · exact List.mem_cons_of_mem _ (mapBounds_filler_mem h)
+  | .bound b0 :: t, f, h => by
+    simp only [mapBounds, List.mem_append, List.mem_map, reduceCtorEq, and_false, exists_false,
+      false_or] at h
+    exact List.mem_cons_of_mem _ (mapBounds_filler_mem h)
+
+/-- a bound made by `-m` is the (unresolvable) bound itself or has no fallback -/
+theorem complementBound_mem (b : UserBounds) (n : Nat) (c : UserBounds)
+    (hc : c ∈ complementBound b n) : c = { b with isLast := false } ∨ c.fallback = none := by
+  unfold complementBound at hc
+  cases hres : resolve b n with
+  | none =>
+    simp only [hres, List.mem_singleton] at hc
+    exact Or.inl hc
+  | some p =>
+    obtain ⟨lo, hi⟩ := p
+    simp only [hres, List.mem_append] at hc
+    right
+    rcases hc with hc | hc
+    · split at hc
+      · simp only [List.mem_singleton] at hc; subst hc; rfl
+      · simp at hc
+    · split at hc
+      · simp only [List.mem_singleton] at hc; subst hc; rfl
+      · simp at hc
+
+/-- a fallback met in the list `emit` works on is a fallback the user wrote -/
+theorem fallback_of_rewritten (opt : Opt) (n : Nat) (c : UserBounds) (f : Bytes)
+    (hc : BoF.bound c ∈ mapBounds (expandBound · n) (specBofs opt n)) (hf : c.fallback = some f) :
+    ∃ b, BoF.bound b ∈ opt.bounds.list ∧ b.fallback = some f := by
+  obtain ⟨b1, hb1, hc1⟩ := mapBounds_bound_mem hc
+  have h1 : b1.fallback = some f := by
+    rcases expandBound_mem b1 n c hc1 with rfl | ⟨k, _, rfl⟩
+    · exact hf
+    · cases hf
+  unfold specBofs at hb1
+  by_cases hm : opt.complement = true
+  · rw [if_pos hm] at hb1
+    obtain ⟨b0, hb0, hc0⟩ := mapBounds_bound_mem hb1
+    rcases complementBound_mem b0 n b1 hc0 with rfl | hnone
+    · exact ⟨b0, hb0, h1⟩
+    · rw [hnone] at h1; cases h1
+  · rw [if_neg hm] at hb1
+    exact ⟨b1, hb1, h1⟩
+
+theorem filler_of_rewritten (opt : Opt) (n : Nat) (f : Bytes)
+    (hf : BoF.filler f ∈ mapBounds (expandBound · n) (specBofs opt n)) :
+    BoF.filler f ∈ opt.bounds.list := by
+  have h1 := mapBounds_filler_mem hf
+  unfold specBofs at h1
+  by_cases hm : opt.complement = true
+  · rw [if_pos hm] at h1
+    exact mapBounds_filler_mem h1
+  · rw [if_neg hm] at h1
+    exact h1
+
 end Tuc
